@@ -48,6 +48,10 @@ def cases(ctx):
     for i in range(ctx.per_shard(ctx.pick(24, 2400))):
         yield {"kind": "single", "seed": rng.getrandbits(32), "feats": rng.choice(subs)}
     for i in range(ctx.per_shard(ctx.pick(12, 1200))):
+        yield {"kind": "links", "seed": rng.getrandbits(32), "feats": rng.choice(subs), "nfiles": rng.randint(2, 8)}
+    for i in range(ctx.per_shard(ctx.pick(2, 48))):
+        yield {"kind": "fdlimit", "seed": rng.getrandbits(32), "nfiles": rng.choice([60, 90])}
+    for i in range(ctx.per_shard(ctx.pick(12, 1200))):
         yield {"kind": "nested", "seed": rng.getrandbits(32), "feats": rng.choice(subs), "nfiles": rng.randint(1, 8)}
     if ctx.shard == 0:
         yield {"kind": "tree", "seed": rng.getrandbits(32), "feats": ["pwd", "ip"], "nfiles": 4, "faults": "none",
@@ -182,6 +186,10 @@ def check_case(ctx, case):
             return _single(ctx, case, nc, wd)
         if case["kind"] == "nested":
             return _nested(ctx, case, nc, wd)
+        if case["kind"] == "links":
+            return _links(ctx, case, nc, wd)
+        if case["kind"] == "fdlimit":
+            return _fdlimit(ctx, case, nc, wd)
         raise HarnessError("unknown kind")
     finally:
         shutil.rmtree(wd, ignore_errors=True)
@@ -537,6 +545,96 @@ def _single(ctx, case, nc, wd):
         ctx.violation(case, "entry-points-disagree:anonymize_io", "%s: file output differs from the stream API" % tag)
         return
     ctx.distinct(("single", case["seed"], tuple(feats)))
+
+
+def _links(ctx, case, nc, wd):
+    """Some input names are symbolic links to files (current.cfg -> 2024-05-01.cfg, a link into another directory):
+    every name is an input of its own and gets its own output - exactly as if the link were a copy of its target."""
+    rng = random.Random(case["seed"])
+    opts = make_opts(rng)
+    feats = case["feats"]
+    tree = gen_tree(rng, opts, case["nfiles"])
+    vis = [f for f in tree["files"] if not f["hidden"]]
+    links = []
+    for k in range(rng.randint(1, 3)):
+        tgt = rng.choice(vis)
+        d = rng.choice([""] + tree["dirs"])
+        rel = (d + "/" if d else "") + rng.choice(["current.cfg", "latest", "link %d.cfg" % k, "zz-alias.txt", "0first.cfg"])
+        if rel in [f["rel"] for f in tree["files"]] or rel in [l[0] for l in links] or rel in tree["dirs"]:
+            continue
+        links.append((rel, tgt))
+    if not links:
+        return
+    src, ref = os.path.join(wd, "in"), os.path.join(wd, "refin")
+    materialise(tree, src)
+    materialise({"files": tree["files"] + [dict(t, rel=rel) for rel, t in links], "dirs": tree["dirs"]}, ref)
+    for rel, t in links:
+        lp = os.path.join(src, rel)
+        target = os.path.join(src, t["rel"])
+        os.symlink(target if rng.random() < 0.5 else os.path.relpath(target, os.path.dirname(lp)), lp)
+    before = fsmon.snapshot(src)
+    w, errs, exc = run_files(nc, src, os.path.join(wd, "out"), opts, feats)
+    w0, errs0, exc0 = run_files(nc, ref, os.path.join(wd, "refout"), opts, feats)
+    ctx.ev()
+    ctx.count("trees_run")
+    ctx.count("trees_with_symlinked_files")
+    tag = "input tree with symbolic links %r, feats=%s" % ([l[0] for l in links], "+".join(feats))
+    if exc is not None or errs or exc0 is not None or errs0:
+        ctx.violation(case, "run-failed-on-symlinked-input", "%s: %r %r" % (tag, exc or exc0, (errs or errs0)[:2]))
+        return
+    if fsmon.snapshot(src) != before:
+        ctx.violation(case, "input-tree-modified", "%s: the input tree changed" % tag)
+        return
+    got = {k: v for k, v in fsmon.snapshot(os.path.join(wd, "out")).items() if v[0] != "dir"}
+    want = {k: v for k, v in fsmon.snapshot(os.path.join(wd, "refout")).items() if v[0] != "dir"}
+    ctx.count("entry_point_comparisons")
+    if set(got) != set(want):
+        ctx.violation(case, "output-missing" if set(want) - set(got) else "unexpected-path-written",
+                      "%s: missing %r, unexpected %r" % (tag, sorted(set(want) - set(got))[:4], sorted(set(got) - set(want))[:4]))
+        return
+    for k in want:
+        if got[k][0] != "file" or got[k][2] != want[k][2]:
+            ctx.violation(case, "linked-input-differs-from-copy", "%s: output %s differs from the run in which the link is a copy of its target" % (tag, k))
+            return
+    ctx.distinct(("links", case["seed"], tuple(feats)))
+
+
+_FD_CHILD = """
+import resource, sys
+resource.setrlimit(resource.RLIMIT_NOFILE, (%d, %d))
+from netconan.anonymize_files import anonymize_files
+anonymize_files(sys.argv[1], sys.argv[2], True, True, salt="fdlimit")
+"""
+
+
+def _fdlimit(ctx, case, nc, wd):
+    """A child interpreter whose descriptor limit is far below 2 x (number of input files): a run that closes
+    each file when it is done with it never comes near the limit, whatever the size of the directory."""
+    import subprocess
+    import sys
+
+    rng = random.Random(case["seed"])
+    n = case["nfiles"]
+    src, dst = os.path.join(wd, "in"), os.path.join(wd, "out")
+    os.makedirs(os.path.join(src, "sub"))
+    names = [("sub/" if i % 4 == 0 else "") + "r%03d.cfg" % i for i in range(n)]
+    for i, name in enumerate(names):
+        with open(os.path.join(src, name), "w") as fh:
+            fh.write("hostname r%d\nusername u%d password Pw%dx\n ip address 10.%d.%d.1 255.255.255.0\n" % (i, i, rng.getrandbits(30), i % 250, rng.randrange(250)))
+    limit = 48
+    p = subprocess.run([sys.executable, "-c", _FD_CHILD % (limit, limit), src, dst], env=load.child_env(rng.randint(1, 9999)),
+                       capture_output=True, text=True, timeout=300)
+    ctx.ev()
+    ctx.count("trees_run")
+    ctx.count("descriptor_limit_runs")
+    ctx.count("cli_child_processes")
+    missing = [nm for nm in names if not os.path.isfile(os.path.join(dst, nm)) or os.path.getsize(os.path.join(dst, nm)) == 0]
+    if p.returncode != 0 or missing:
+        ctx.violation(case, "outputs-missing-under-descriptor-limit",
+                      "%d input files with RLIMIT_NOFILE=%d: rc=%s, %d outputs missing or empty (first %r); stderr tail %r"
+                      % (n, limit, p.returncode, len(missing), missing[:3], p.stderr[-300:]))
+        return
+    ctx.distinct(("fdlimit", case["seed"]))
 
 
 def _nested(ctx, case, nc, wd):
